@@ -137,3 +137,73 @@ func reduceWith(a *lin, eqs []*lin) *lin {
 	}
 	return cur
 }
+
+// linCond renders the comparison `d op 0` over integers in a canonical form, so that the many ways of
+// writing one test (i != n-1, i < last with last := n-1, !(i >= n-1), n-1 > i …) give one text:
+//   - the terms are ordered by symbol and the first has a positive coefficient;
+//   - strict inequalities are tightened (d < 0 is d <= -1), leaving ==, !=, <=, >=;
+//   - the constant stands on the right;
+//   - for a quantity that cannot be negative (a length, a loop index, a masked bit-field), s >= 1 is
+//     s != 0 and s <= 0 is s == 0;
+//   - for the index of a range loop over X, which is at most len(X)-1, idx(X)-len(X) >= -1 is == -1
+//     and <= -2 is != -1.
+func linCond(d *lin, op string) string {
+	d = d.clone()
+	var keys []string
+	for k := range d.t {
+		keys = append(keys, k)
+	}
+	sort.Strings(keys)
+	flip := map[string]string{"<": ">", ">": "<", "<=": ">=", ">=": "<=", "==": "==", "!=": "!="}
+	if len(keys) > 0 && d.t[keys[0]] < 0 {
+		d = d.scale(-1)
+		op = flip[op]
+	}
+	switch op {
+	case "<":
+		d.c++
+		op = "<="
+	case ">":
+		d.c--
+		op = ">="
+	}
+	rhs := -d.c
+	d.c = 0
+	if len(keys) == 1 && d.t[keys[0]] == 1 && (nonNegSym(keys[0]) || strings.HasPrefix(keys[0], "idx(")) {
+		switch {
+		case op == ">=" && rhs == 1:
+			op, rhs = "!=", 0
+		case op == "<=" && rhs == 0:
+			op, rhs = "==", 0
+		}
+	}
+	if len(keys) == 2 && strings.HasPrefix(keys[0], "idx(") && keys[1] == "len("+strings.TrimPrefix(keys[0], "idx(") &&
+		d.t[keys[0]] == 1 && d.t[keys[1]] == -1 {
+		switch {
+		case op == ">=" && rhs == -1:
+			op = "=="
+		case op == "<=" && rhs == -2:
+			op, rhs = "!=", -1
+		}
+	}
+	lhs := "0"
+	if len(keys) > 0 {
+		lhs = d.String()
+	}
+	return fmt.Sprintf("%s %s %d", lhs, op, rhs)
+}
+
+var negOp = map[string]string{"<": ">=", ">": "<=", "<=": ">", ">=": "<", "==": "!=", "!=": "=="}
+
+// linCondNamed is linCond, except that an (in)equality of a single symbol with a named constant of an
+// enumeration type keeps the constant's name: `vm.why == whyReturn`, not `vm.why == 2`.
+func linCondNamed(d *lin, op, name string) string {
+	if name != "" && (op == "==" || op == "!=") && len(d.t) == 1 {
+		for s, k := range d.t {
+			if k == 1 || k == -1 {
+				return s + " " + op + " " + name
+			}
+		}
+	}
+	return linCond(d, op)
+}
